@@ -205,3 +205,15 @@ func eqStrs(a, b []string) bool {
 	}
 	return true
 }
+
+func eqInts(a, b []int) bool {
+	if len(a) != len(b) {
+		return false
+	}
+	for i := range a {
+		if a[i] != b[i] {
+			return false
+		}
+	}
+	return true
+}
